@@ -152,12 +152,18 @@ func (b *bridgeHist) depositOutputs(key *relayertypes.PublicKey, evm []byte, ver
 	if sc == nil {
 		return nil, 0
 	}
+	// the other outputs of a deposit transaction (change, other payments) are worth more than the minimum deposit half of
+	// the time: claiming one of them instead of the designated output must fail on the script, not on the amount
+	side := int64(777)
+	if b.lh.r.Intn(2) == 0 {
+		side = int64(300_000 + b.lh.r.Intn(1000))
+	}
 	if version == 1 {
-		return []*wire.TxOut{wire.NewTxOut(int64(value), sc[0]), wire.NewTxOut(0, sc[1]), wire.NewTxOut(777, append([]byte{0, 20}, make([]byte, 20)...))}, 0
+		return []*wire.TxOut{wire.NewTxOut(int64(value), sc[0]), wire.NewTxOut(0, sc[1]), wire.NewTxOut(side, append([]byte{0, 20}, make([]byte, 20)...))}, 0
 	}
 	outs := []*wire.TxOut{}
 	for i := 0; i < voutAt; i++ {
-		outs = append(outs, wire.NewTxOut(int64(1000+i), append([]byte{0, 20}, make([]byte, 20)...)))
+		outs = append(outs, wire.NewTxOut(side+int64(i), append([]byte{0, 20}, make([]byte, 20)...)))
 	}
 	outs = append(outs, wire.NewTxOut(int64(value), sc[0]))
 	return outs, uint32(voutAt)
